@@ -300,7 +300,7 @@ def detect_vflags(c):
 # ---------------------------------------------------------------------------------------------------------------
 # reach of the unbounded theorems on the generated cases (the boolean hypotheses of the theorems, evaluated by the
 # extracted definitions themselves)
-REACH_BITS = ('wf_coreb', 'wf_initb', 'wf_histb', 'wf_fastb', 'core_treeb', 'c01_treeb', 'eq_chartb')
+REACH_BITS = ('wf_coreb', 'wf_initb', 'wf_histb', 'wf_fastb', 'core_treeb', 'c01_treeb', 'eq_chartb', 'hist_treeb', 'eq_tree_histb', 'c01i_treeb')
 
 
 def theorem_reach(c, cases, vflags='0000', want=('reach', 'runguard', 'eqguard')):
@@ -325,6 +325,7 @@ def theorem_reach(c, cases, vflags='0000', want=('reach', 'runguard', 'eqguard')
         for i, r in enumerate(o):
             out[i]['run'] = tuple(ch == '1' for ch in r[:3]) if len(r) >= 3 and set(r[:3]) <= set('01') else (False, False, False)
             out[i]['runi'] = tuple(ch == '1' for ch in r[3:5]) if len(r) >= 5 and set(r[:5]) <= set('01') else (False, False)
+            out[i]['runh'] = tuple(ch == '1' for ch in r[5:7]) if len(r) >= 7 and set(r[:7]) <= set('01') else (False, False)
     if 'eqguard' in want:
         o, _ = run_lines_sharded(vm, ['eqguard %s %d %d %s (%s)' % (vflags, late[i], FUEL, sx[i], evs[i]) for i in range(len(cases))], timeout=1500)
         for i, r in enumerate(o):
